@@ -78,13 +78,13 @@ pub fn check_delivered_equals_source(sc: &Scenario, tr: &Trace, put: usize) -> R
         if !sc.entities[entity].present {
             continue;
         }
-        for (t, fin) in tr.finished_inds(entity, id) {
+        for (idx, t, fin) in tr.finished_inds_idx(entity, id) {
             if !is_success(fin) {
                 continue;
             }
             claimed = true;
-            // the snapshot taken when this indication was observed
-            let snap = tr.snaps.iter().find(|s| s.entity == entity && s.put == put && s.t == t);
+            // the snapshot taken when this very indication was observed
+            let snap = tr.snap_for(idx);
             let content = snap.and_then(|s| s.content.clone());
             let verdict = match &content {
                 None => Some(("success-claimed-no-file", "the destination does not exist".to_string())),
